@@ -67,6 +67,10 @@ pub enum Verdict {
     /// `signature`: short stable identifier of the failure kind (matched against known findings);
     /// `detail`: human readable explanation
     Fail { signature: String, detail: String },
+    /// the case exhibits a defect whose exact outcome the oracle models (`signature`), and is otherwise
+    /// fine: counted like a pass (with `info`) if the signature is listed as an open known finding,
+    /// reported as a violation if it is not
+    Known { signature: String, detail: String, info: CaseInfo },
 }
 
 pub fn fail(signature: &str, detail: String) -> Verdict {
@@ -323,7 +327,20 @@ impl Run {
         let before_ev = self.stats.evaluations;
         let mut complete = true;
         for v in items {
-            match guarded(|| oracle(&v)) {
+            let verdict = match guarded(|| oracle(&v)) {
+                Verdict::Known { signature, detail, info } => {
+                    if self.is_known(&signature) {
+                        self.record_known(&signature, &|| format!("{:?}", v));
+                        self.stats.evaluations -= 1;
+                        Verdict::Pass(info)
+                    } else {
+                        Verdict::Fail { signature, detail }
+                    }
+                }
+                other => other,
+            };
+            match verdict {
+                Verdict::Known { .. } => unreachable!(),
                 Verdict::Pass(info) => self.record_pass(info, &|| format!("{:?}", v)),
                 Verdict::Fail { signature, detail } => {
                     if self.is_known(&signature) {
@@ -351,7 +368,20 @@ impl Run {
 
     /// Record a result computed by custom machinery (schedulers, network test-bed ...).
     pub fn custom<T: Debug + Serialize>(&mut self, campaign: &str, input: &T, verdict: Verdict) -> bool {
+        let verdict = match verdict {
+            Verdict::Known { signature, detail, info } => {
+                if self.is_known(&signature) {
+                    self.record_known(&signature, &|| format!("{:?}", input));
+                    self.stats.evaluations -= 1;
+                    Verdict::Pass(info)
+                } else {
+                    Verdict::Fail { signature, detail }
+                }
+            }
+            other => other,
+        };
         match verdict {
+            Verdict::Known { .. } => unreachable!(),
             Verdict::Pass(info) => {
                 self.record_pass(info, &|| format!("{:?}", input));
                 true
@@ -500,13 +530,27 @@ where
                 Err(TestCaseError::fail(format!("{signature}: {detail}")))
             }
         }
+        Verdict::Known { signature, detail, info } => {
+            if known.iter().any(|k| *k == signature) {
+                if !*failed.borrow() {
+                    let mut st = stats.borrow_mut();
+                    st.record_known(&signature, &|| format!("{:?}", v));
+                    st.evaluations -= 1;
+                    st.record_pass(info, &|| format!("{:?}", v));
+                }
+                Ok(())
+            } else {
+                *failed.borrow_mut() = true;
+                Err(TestCaseError::fail(format!("{signature}: {detail}")))
+            }
+        }
     });
     let stats = stats.into_inner();
     match result {
         Ok(()) => (stats, None, None),
         Err(TestError::Fail(_reason, value)) => {
             let (signature, detail) = match guarded(|| oracle(&value)) {
-                Verdict::Fail { signature, detail } => (signature, detail),
+                Verdict::Fail { signature, detail } | Verdict::Known { signature, detail, .. } => (signature, detail),
                 Verdict::Pass(_) => ("flaky".to_string(), "minimal input passes on re-evaluation".to_string()),
             };
             (stats, Some((value, signature, detail)), None)
